@@ -32,6 +32,13 @@ import (
 //	a addforeign <hex comment> <id> front|back   an identity of a key algorithm golang.org/x/crypto/ssh does not
 //	                                        know (PKIX-SSH x509v3-sign-rsa, ssh-xmss@openssh.com, a vendor type — what
 //	                                        other agents / smart-card middleware list), listed before / after the rest
+//	a install <hex comment> <id> <kind>:<bits> <fault>…    the client's installation sequence
+//	                                        (cmd/keymaster insertSSHCertIntoAgentORWriteToFilesystem): an upsert with a
+//	                                        lifetime and, while it fails, one more of the very same certificate without
+//	                                        lifetime — one attempt per fault word, each on a new connection, against an
+//	                                        agent that fails one request of that attempt: ok | list | remove<k> (the
+//	                                        Remove after k successful ones) | add | life (lifetime constraints refused)
+//	                                        -> ok|fail list …
 //	a list                                  -> list {<hex comment>:<id>:c|p|f} sorted
 func TestVerifC19(t *testing.T) {
 	io := vfOpen(t)
@@ -116,8 +123,12 @@ func TestVerifC19(t *testing.T) {
 			}
 			k.Certificate = cert
 			blobID[string(cert.Marshal())] = id
+			vfBlobSeq[string(cert.Marshal())] = len(vfBlobSeq)
 		} else {
 			blobID[string(sshPub.Marshal())] = id
+			if _, ok := vfBlobSeq[string(sshPub.Marshal())]; !ok {
+				vfBlobSeq[string(sshPub.Marshal())] = len(vfBlobSeq)
+			}
 		}
 		return k
 	}
@@ -192,6 +203,60 @@ func TestVerifC19(t *testing.T) {
 				continue
 			}
 			io.emit("%s", list())
+		case f[0] == "install" && len(f) >= 5:
+			comment, ok := vfUnhex(f[1])
+			if !ok {
+				io.emit("bad-op")
+				continue
+			}
+			var plans []*vfFlakyAgent
+			for _, w := range f[4:] {
+				p := &vfFlakyAgent{inner: served, failRemoveAt: -1}
+				switch {
+				case w == "ok":
+				case w == "list":
+					p.failList = true
+				case w == "add":
+					p.failAdd = true
+				case w == "life":
+					p.refuseLifetime = true
+				case strings.HasPrefix(w, "remove"):
+					n, err := strconv.Atoi(w[6:])
+					if err != nil || n < 0 {
+						p = nil
+					} else {
+						p.failRemoveAt = n
+					}
+				default:
+					p = nil
+				}
+				if p == nil {
+					plans = nil
+					break
+				}
+				plans = append(plans, p)
+			}
+			if plans == nil {
+				io.emit("bad-op")
+				continue
+			}
+			key := mk(f[2], true, comment, f[3])
+			key.LifetimeSecs = 3600
+			result := "fail"
+			for i, p := range plans {
+				if i > 0 {
+					key.LifetimeSecs = 0 // the client's retry: the same certificate, no lifetime
+				}
+				client, server := net.Pipe()
+				go agent.ServeAgent(p, server)
+				err := withAddedKeyUpsertCertIntoAgentConnection(key, client, logger)
+				client.Close()
+				if err == nil {
+					result = "ok"
+					break
+				}
+			}
+			io.emit("%s %s", result, list())
 		case f[0] == "addforeign" && len(f) == 4 && (f[3] == "front" || f[3] == "back"):
 			comment, ok := vfUnhex(f[1])
 			if !ok {
@@ -226,6 +291,8 @@ func TestVerifC19(t *testing.T) {
 // vfForeignAgent is the in-memory keyring plus identities it could never hold itself: keys of
 // algorithms unknown to golang.org/x/crypto/ssh, as a real ssh-agent (or gpg-agent, smart-card
 // middleware) may list them. They come before (`front`) or after (`back`) the keyring's own.
+var vfBlobSeq = map[string]int{}
+
 type vfForeignAgent struct {
 	agent.Agent
 	front, back []*agent.Key
@@ -236,6 +303,9 @@ func (a *vfForeignAgent) List() ([]*agent.Key, error) {
 	if err != nil {
 		return nil, err
 	}
+	// identities in the order they were added, as OpenSSH's ssh-agent lists them (the in-memory keyring
+	// moves its last key into the place of a removed one)
+	sort.SliceStable(keys, func(i, j int) bool { return vfBlobSeq[string(keys[i].Blob)] < vfBlobSeq[string(keys[j].Blob)] })
 	out := append([]*agent.Key(nil), a.front...)
 	out = append(out, keys...)
 	return append(out, a.back...), nil
@@ -269,3 +339,50 @@ func (a *vfForeignAgent) Remove(key ssh.PublicKey) error {
 	}
 	return a.Agent.Remove(key)
 }
+
+// vfFlakyAgent is the agent of one attempt: it forwards to the scenario's agent but fails one
+// request, as a restarting, busy or forwarded agent does (or refuses lifetime constraints, as the
+// Windows OpenSSH agent did).
+type vfAgentIface = agent.Agent
+
+type vfFlakyAgent struct {
+	inner          vfAgentIface
+	failList       bool
+	failRemoveAt   int // the Remove request after this many successful ones fails; -1: none
+	failAdd        bool
+	refuseLifetime bool
+	removes        int
+}
+
+var errVfTransient = fmt.Errorf("transient agent failure")
+
+func (a *vfFlakyAgent) List() ([]*agent.Key, error) {
+	if a.failList {
+		return nil, errVfTransient
+	}
+	return a.inner.List()
+}
+
+func (a *vfFlakyAgent) Remove(key ssh.PublicKey) error {
+	if a.removes == a.failRemoveAt {
+		a.failRemoveAt = -1
+		return errVfTransient
+	}
+	a.removes++
+	return a.inner.Remove(key)
+}
+
+func (a *vfFlakyAgent) Add(key agent.AddedKey) error {
+	if a.failAdd || (a.refuseLifetime && key.LifetimeSecs != 0) {
+		return errVfTransient
+	}
+	return a.inner.Add(key)
+}
+
+func (a *vfFlakyAgent) Sign(key ssh.PublicKey, data []byte) (*ssh.Signature, error) {
+	return a.inner.Sign(key, data)
+}
+func (a *vfFlakyAgent) RemoveAll() error               { return a.inner.RemoveAll() }
+func (a *vfFlakyAgent) Lock(p []byte) error            { return a.inner.Lock(p) }
+func (a *vfFlakyAgent) Unlock(p []byte) error          { return a.inner.Unlock(p) }
+func (a *vfFlakyAgent) Signers() ([]ssh.Signer, error) { return a.inner.Signers() }
